@@ -327,6 +327,21 @@ def gfifo(rng):
 CORPUS = os.path.join(fw.VERIF, 'corpus', 'C11_histories.json')
 
 
+ROUTINE_SUBCLASSES = ['esp']     # sc3.seq.eventstream.EventStreamPlayer: the only Routine subclass the library defines
+
+
+def with_subclasses(case, seed, idx):
+    """some routines of the program become instances of a Routine subclass (same script as body): the model is the same.
+    Own PRNG per case so that the main generator stream is not disturbed."""
+    import random
+    rng = random.Random(seed * 7919 + idx)
+    if rng.random() < 0.5:
+        for d in case['defs']:
+            if rng.random() < 0.5:
+                d['cls'] = rng.choice(ROUTINE_SUBCLASSES)
+    return case
+
+
 def gen_cases(ctx, n):
     cases = []
     if os.path.exists(CORPUS):
@@ -344,7 +359,7 @@ def gen_cases(ctx, n):
             continue
         mode = 'plain' if x < 0.45 else 'cond' if x < 0.78 else 'reentrant'
         cases.append(gcase(ctx.rng, mode))
-    return cases
+    return [with_subclasses(k, ctx.seed, j) if k.get('mode') != 'corpus' else k for j, k in enumerate(cases)]
 
 
 # --------------------------------------------------------------------------- running
@@ -469,6 +484,7 @@ def correspond(ctx):
     for k, r in keep:
         c.count('mode:' + k.get('mode', 'corpus'))
         for d in k['defs']:
+            c.count('class:' + d.get('cls', 'routine'))
             for a in d['script']:
                 if a[0] in ('raisebase', 'relay'):
                     c.count('act:' + a[0])
@@ -559,6 +575,10 @@ def shrink(ctx, case, key):
             if d['hasin']:
                 nd = copy.deepcopy(k['defs'])
                 nd[ri]['hasin'] = False
+                out.append(dict(k, defs=nd))
+            if d.get('cls'):
+                nd = copy.deepcopy(k['defs'])
+                del nd[ri]['cls']
                 out.append(dict(k, defs=nd))
         if k['defs'] and not any(_mentions(k, len(k['defs']) - 1)):
             out.append(dict(k, defs=k['defs'][:-1]))
